@@ -77,12 +77,12 @@ Definition out_eqb (a b : option outcome) : bool :=
   end.
 
 (** entry points of the driver: names arrive as bytes *)
-Definition run_eval (c : ds_consts) (cc : cmdline_consts) (name : list byte) (d : pstate_data) (arg : list byte) (sz : N) : option outcome :=
+Definition run_eval (c : ds_consts) (ts_wide : bool) (cc : cmdline_consts) (name : list byte) (d : pstate_data) (arg : list byte) (sz : N) : option outcome :=
   let n := string_of_list_byte name in
   let st := mk_pstate d in
   if seq n "cgroup" then cgroup_ds c st arg sz
   else if seq n "rpname" then rpname_ds c (S (length (d_status d))) st sz
-  else eval_ds (expected_gen c) cc n st arg sz.
+  else eval_ds (expected_gen c ts_wide) cc n st arg sz.
 
 Definition run_doc (c : ds_consts) (name : list byte) (d : pstate_data) (arg : list byte) (sz : N) : option outcome :=
   let n := string_of_list_byte name in
